@@ -40,6 +40,29 @@ pub enum Step {
     Endless(Vec<Row>),
 }
 
+/// Same table with the string column as Utf8View (inline <= 12 bytes / buffer-backed > 12 bytes).
+pub fn table_schema_view() -> SchemaRef {
+    Arc::new(Schema::new(vec![
+        Field::new("id", DataType::Int64, false),
+        Field::new("k", DataType::Int32, true),
+        Field::new("s", DataType::Utf8View, true),
+        Field::new("v", DataType::Int64, true),
+    ]))
+}
+pub fn schema_for(view: bool) -> SchemaRef {
+    if view { table_schema_view() } else { table_schema() }
+}
+pub fn rows_to_batch_for(rows: &[Row], view: bool) -> RecordBatch {
+    if !view {
+        return rows_to_batch(rows);
+    }
+    let id: ArrayRef = Arc::new(Int64Array::from(rows.iter().map(|r| r.id).collect::<Vec<_>>()));
+    let k: ArrayRef = Arc::new(Int32Array::from(rows.iter().map(|r| r.k).collect::<Vec<_>>()));
+    let s: ArrayRef = Arc::new(arrow::array::StringViewArray::from(rows.iter().map(|r| r.s.clone()).collect::<Vec<_>>()));
+    let v: ArrayRef = Arc::new(Int64Array::from(rows.iter().map(|r| r.v).collect::<Vec<_>>()));
+    RecordBatch::try_new(table_schema_view(), vec![id, k, s, v]).unwrap()
+}
+
 pub fn rows_to_batch(rows: &[Row]) -> RecordBatch {
     let id: ArrayRef = Arc::new(Int64Array::from(rows.iter().map(|r| r.id).collect::<Vec<_>>()));
     let k: ArrayRef = Arc::new(Int32Array::from(rows.iter().map(|r| r.k).collect::<Vec<_>>()));
@@ -191,6 +214,14 @@ impl TableGen {
                     let k = if rng.below(100) < self.null_pct { None } else { Some(rng.below(self.key_domain as u64) as i64) };
                     let s = if rng.below(100) < self.null_pct {
                         None
+                    } else if rng.below(100) < 20 {
+                        // strings around the 12-byte inline limit of view arrays that share a prefix
+                        Some(match rng.below(4) {
+                            0 => format!("abcd{}", ["a", "b", "y"][rng.below(3) as usize]),
+                            1 => format!("abcd{}_a_long_tail", ["c", "x"][rng.below(2) as usize]),
+                            2 => "abcdefghijkl".to_string(),
+                            _ => format!("abcdefghijklm{}", rng.below(3)),
+                        })
                     } else {
                         Some(format!("{}{}", ["a", "b", "c", "dd", ""][rng.below(5) as usize], rng.below(4)))
                     };
